@@ -117,7 +117,7 @@ V("c14-no-clamp", "C14", BASE, "            if self._parameter_value[key] > valu
 V("c14-copy-regress", "C14", BASE,
   "            type(self)()\n            .set_lower_limits(**{key: -inf for key in self.get_lower_limits()})\n            .set_upper_limits(**self.get_upper_limits())\n            .set_lower_limits(**self.get_lower_limits())\n",
   "            type(self)()\n            .set_lower_limits(**self.get_lower_limits())\n            .set_upper_limits(**self.get_upper_limits())\n", "fire", "Element.__copy__:refused")
-V("c14-copy-no-fixed", "C14", BASE, "            .set_values(**self.get_values())\n            .set_fixed(**self.are_fixed())\n            .set_label(self._label)", "            .set_values(**self.get_values())\n            .set_label(self._label)", "fire", "Element.__copy__:set_fixed-missing")
+V("c14-copy-no-fixed", "C14", BASE, "            .set_values(**self.get_values())\n            .set_fixed(**self.are_fixed())\n            .set_label(self._label)", "            .set_values(**self.get_values())\n            .set_label(self._label)", "fire", "Element.__copy__:wrong-state")
 V("c14-getter-alias", "C14", BASE, "        if not (args or kwargs):\n            return self._parameter_value.copy()", "        if not (args or kwargs):\n            return self._parameter_value", "fire", "returns-_parameter_value")
 V("c14-init-alias", "C14", BASE, "        ] = self._parameter_default_lower_limit.copy()", "        ] = self._parameter_default_lower_limit", "fire", "aliases-_parameter_default_lower_limit")
 V("c14-reset-regress", "C14", BASE, "        self.set_lower_limits(key, -inf)\n", "", "fire", "Element.reset_parameter:refused")
